@@ -189,6 +189,10 @@ func c09KeyWire(t []string) (string, []string) {
 		return un + "KEYWORD " + name, rest
 	case 'h':
 		kv := strings.Split(arg, ":")
+		switch k := c09Str(kv[0]); k {
+		case "From", "To", "Cc", "Bcc", "Subject": // what the server turns FROM/TO/CC/BCC/SUBJECT into
+			return strings.ToUpper(k) + " " + c09Quote(c09Str(kv[1])), rest
+		}
 		return "HEADER " + c09Quote(c09Str(kv[0])) + " " + c09Quote(c09Str(kv[1])), rest
 	case 's':
 		return "SINCE " + c09DateWire(arg), rest
@@ -891,6 +895,67 @@ var (
 	c09HdrNames = []string{"Subject", "subject", "FROM", "X-Spam", "To", "Date", "Cc", "x-spam"}
 )
 
+// repeated header fields; the later values contain words the first one does not
+var c09DupHdrs = []struct {
+	key  string
+	vals []string
+}{
+	{"Keywords", []string{"alpha", "beta gamma", "delta"}},
+	{"Received", []string{"from mx1.example.org by a", "from mx2.example.net by b", "from relay3 by c"}},
+	{"Comments", []string{"first", "second thought", "third"}},
+	{"X-Tag", []string{"red", "green", "blue"}},
+	{"To", []string{"bob@example.org", "carol@example.net", "dave@example.com"}},
+	{"Cc", []string{"erin@example.org", "frank@example.net"}},
+	{"Bcc", []string{"gina@example.org", "hal@example.net"}},
+	{"Subject", []string{"hi there", "second subject", "third line"}},
+	{"From", []string{"Alice <alice@example.org>", "Zed <zed@example.net>"}},
+}
+
+// dupHdrKey is a HEADER-type key on a repeated field: mostly a word of a non-first occurrence.
+func (g *c09Gen) dupHdrKey() string {
+	d := pick(g.r, c09DupHdrs)
+	v := d.vals[g.r.intn(len(d.vals))]
+	if g.r.chance(2, 3) {
+		v = d.vals[1+g.r.intn(len(d.vals)-1)]
+	}
+	w := strings.Fields(v)
+	word := strings.Trim(pick(g.r, w), "<>")
+	if g.r.chance(1, 4) {
+		word = strings.ToUpper(word)
+	}
+	if g.r.chance(1, 8) {
+		word = ""
+	}
+	key := d.key
+	switch g.r.intn(4) {
+	case 0:
+		key = strings.ToLower(key)
+	case 1:
+		key = strings.ToUpper(key)
+	}
+	return "h" + hxs(key) + ":" + hxs(word)
+}
+
+// hdrNested puts a repeated-field HEADER key plain, under NOT, under OR or in a group.
+func (g *c09Gen) hdrNested(depth int) []string {
+	r := g.r
+	if depth <= 0 {
+		return []string{g.dupHdrKey()}
+	}
+	switch r.intn(5) {
+	case 0:
+		return []string{g.dupHdrKey()}
+	case 1, 2:
+		return append([]string{"n"}, g.hdrNested(depth-1)...)
+	case 3:
+		if r.chance(1, 2) {
+			return append(append([]string{"o"}, g.hdrNested(depth-1)...), g.key(1)...)
+		}
+		return append(append([]string{"o"}, g.key(1)...), g.hdrNested(depth-1)...)
+	}
+	return append(append([]string{"("}, g.hdrNested(depth-1)...), ")")
+}
+
 type c09Gen struct {
 	r      *rng
 	nconn  int
@@ -1039,6 +1104,14 @@ func (g *c09Gen) genAppend(conn int, name string) {
 		t := time.Unix(c09D0+int64(g.r.intn(5))*86400+int64(g.r.intn(86400)), 0).In(time.FixedZone("", z))
 		hdrs = append(hdrs, hxs("Date")+":"+hxs(t.Format("Mon, 02 Jan 2006 15:04:05 -0700")))
 		sentDay = fmtTime(time.Date(t.Year(), t.Month(), t.Day(), 0, 0, 0, 0, time.UTC))
+	}
+	// the same field more than once: a searched substring may sit in a non-first occurrence only
+	if g.r.chance(1, 3) {
+		d := pick(g.r, c09DupHdrs)
+		for _, v := range d.vals[:2+g.r.intn(len(d.vals)-1)] {
+			hdrs = append(hdrs, hxs(pick(g.r, []string{d.key, d.key, strings.ToLower(d.key)}))+":"+hxs(v))
+		}
+		g.counts = append(g.counts, "append:repeated-header-field")
 	}
 	// headers only the envelope / body structure look at (outside the model, exercised for crashes)
 	if g.r.chance(1, 5) {
@@ -1479,6 +1552,9 @@ func (g *c09Gen) step() {
 			if r.chance(1, 4) {
 				ks = append(ks, g.dynNested(1+r.intn(3))...)
 				g.counts = append(g.counts, "search:dynamic-set-under-not-or-group")
+			} else if r.chance(1, 4) {
+				ks = append(ks, g.hdrNested(r.intn(3))...)
+				g.counts = append(g.counts, "search:header-key-on-repeated-field")
 			} else {
 				ks = append(ks, g.key(2+r.intn(2))...)
 			}
@@ -1541,6 +1617,11 @@ var c09Corpus = []struct {
 	// a multipart message without any part: BODY / BODYSTRUCTURE crashed the connection (F44)
 	{1, []string{"c1 APPEND 494e424f58 _ _ 436f6e74656e742d54797065:6d756c7469706172742f6d697865643b20626f756e646172793d6231 2d2d62312d2d0d0a 0 0",
 		"c1 SELECT 494e424f58", "c1 FETCH s 1-1 BD", "c1 FETCH s 1-1 BS B1/1/-/-/-", "c1 FETCH s 1-1 FULL"}},
+	// a searched word in a non-first occurrence of a repeated field (seeded change C09-seed6)
+	{1, []string{"c1 APPEND 494e424f58 _ _ 4b6579776f726473:616c706861,4b6579776f726473:626574612067616d6d61,546f:626f62406578616d706c652e6f7267,746f:6361726f6c406578616d706c652e6e6574 78 0 0",
+		"c1 APPEND 494e424f58 _ _ 4b6579776f726473:616c706861 79 0 0", "c1 SELECT 494e424f58",
+		"c1 SEARCH s _ h4b6579776f726473:62657461", "c1 SEARCH s _ n h4b6579776f726473:67616d6d61", "c1 SEARCH s _ o h546f:6361726f6c q2-2",
+		"c1 SEARCH u _ n h544f:4341524f4c", "c1 SEARCH s _ h4b6579776f726473:616c706861", "c1 SEARCH s nxc o n h6b6579776f726473:62657461 h546f:-"}},
 	// "*" under NOT / OR / nested groups must be resolved like at top level (seeded change R3-a08-1)
 	{1, []string{"c1 APPEND 494e424f58 _ _ _ 61 0 0", "c1 APPEND 494e424f58 _ _ _ 62 0 0", "c1 APPEND 494e424f58 _ _ _ 63 0 0", "c1 APPEND 494e424f58 _ _ _ 64 0 0",
 		"c1 SELECT 494e424f58", "c1 SEARCH s _ n q0-0", "c1 SEARCH s _ o q1-1 q0-0", "c1 SEARCH s _ n q10-0", "c1 SEARCH u _ n n u0-0",
